@@ -10,6 +10,8 @@ import CookModel.Num.ScaleM
 import CookModel.Lemmas.StdMetaLists
 import CookModel.Lemmas.ScaleOffset
 import CookModel.Lemmas.BuilderBridge
+import CookModel.Lemmas.PackParsed
+import CookModel.Lemmas.RecipeText
 import CookModel.Lemmas.FitIdem
 /-
   C08  Scaling multiplies exactly the scalable amounts and nothing else.
@@ -802,5 +804,71 @@ example : fit (Converter.bundled Rat) ⟨.number (.regular 1500), some ['m','l']
       | ok u => simp only at h1; rw [h1]
   · decide +kernel
 -- ===== end w6numeric =====
+
+-- ===== w7c15nan =====
+/-! ## the recipe `parse` returns, with its metadata and servings, through `scale` (wave `w7c15nan`,
+    notes/frontmatter.md open items 2 and 3; lemmas Lemmas/PackParsed.lean)
+
+  `Col.packWith c m sv` is the `Recipe { metadata: m, sections …, data: Servings(sv) }` that `parse` packs from the
+  collector `c`; `Col.pack c` instantiates the two fields for a document without front matter (the `>>` map and
+  the servings the fold stored; with front matter they are `FM.fullMetadata` / `FM.fullServings`). -/
+
+/-- **`parse` then `scale` / `scale_to_servings` / `default_scale` is `scaleM` / `scaleToServingsM` / `defaultScaleM`
+    of the packed recipe**, for every arithmetic instance, every metadata map and servings: the component tables are
+    those of `recipeScale` on the collector's recipe (the object of the C08–C10 and C15 theorems, and a
+    `ParsedDerived` recipe for parser output), the metadata map is passed on unchanged, `data` is the scaling record;
+    the base of `scale_to_servings` is read from the packed servings. -/
+theorem C08_parsed_scale_is_scaleM {α} [Arith α] (cv : Converter α) (c : Col α) (m : Serde.Metadata)
+    (sv : Serde.Servings) (f : α) (n : Nat) :
+    scaleM cv (c.packWith m sv) f =
+      ⟨m, (recipeScale cv c.toRecipe f).1, (recipeScale cv c.toRecipe f).2.toScaled⟩ ∧
+    scaleToServingsM cv (c.packWith m sv) n =
+      ⟨m, (recipeScaleToServings cv c.toRecipe sv n).1, (recipeScaleToServings cv c.toRecipe sv n).2.toScaled⟩ ∧
+    defaultScaleM (c.packWith m sv) = ⟨m, recipeDefaultScale c.toRecipe, .defaultScaling⟩ ∧
+    (∀ env input, (parseRecipe (α := α) env input).output = some c →
+      ParsedDerived (scaleM cv (c.packWith m sv) f).recipe ∧
+      ParsedDerived (scaleToServingsM cv (c.packWith m sv) n).recipe ∧
+      ParsedDerived (defaultScaleM (c.packWith m sv)).recipe) :=
+  ⟨rfl, rfl, rfl, fun env input h =>
+    ⟨.scale env input c h cv f, .scale env input c h cv _, .defaultScale env input c h⟩⟩
+
+/-- **The servings of a parsed recipe are `value_as_servings` of the LAST accepted servings entry, and that list is
+    the base of `scale_to_servings`.**  Document without front matter.  (a) If the event stream is
+    `pre ++ [>> k: v] ++ post` where `>> k: v` is a servings entry — its trimmed key is not a `[config]` key, it is a
+    standard key and `check_std_entry` returns `value_as_servings = b :: rest` — and no entry of `post` is a
+    servings entry (entries that are REJECTED by the check, e.g. `>> servings: many`, do not count: they leave the
+    stored list alone), then `servings()` of the packed recipe is `b :: rest` and `scale_to_servings(n)` is
+    `scale(n / b)` (`C08_servings_base`).  (b) Without any servings entry the recipe has no servings and
+    `scale_to_servings(n)` is `scale(n)`. -/
+theorem C08_parsed_servings_base (cv : Converter Rat) (env : Env) (input : Str) (c : Col Rat)
+    (hout : (parseRecipe (α := Rat) env input).output = some c) (n : Nat) :
+    (∀ (pre post : List (Ev Rat)) (k v : Text) (b : Nat) (rest : List Nat),
+      (pullEvents (α := Rat) env.cs env.ext input).1.toList = pre ++ Ev.metadata k v :: post →
+      ServingsEntry env k v (b :: rest) →
+      (∀ k' v' sv', Ev.metadata k' v' ∈ post → ¬ ServingsEntry env k' v' sv') →
+      servingsM c.pack = some (b :: rest) ∧
+      scaleToServingsM cv c.pack n = scaleM cv c.pack ((n : Rat) / (b : Rat))) ∧
+    ((∀ k v sv, Ev.metadata k v ∈ (pullEvents (α := Rat) env.cs env.ext input).1.toList →
+        ¬ ServingsEntry env k v sv) →
+      servingsM c.pack = none ∧ scaleToServingsM cv c.pack n = scaleM cv c.pack (n : Rat)) := by
+  refine ⟨?_, ?_⟩
+  · intro pre post k v b rest hsplit hentry hlast
+    have hs : servingsM c.pack = some (b :: rest) :=
+      pk_parse_servings_last env input c hout pre post k v _ hsplit hentry hlast
+    exact ⟨hs, (C08_servings_base cv c.pack n).1 b rest hs⟩
+  · intro hno
+    have hs : servingsM c.pack = none := pk_parse_servings_none env input c hout hno
+    exact ⟨hs, (C08_servings_base cv c.pack n).2.1 (Or.inl hs)⟩
+
+/-- an environment whose standard-key check reads every `servings` value as `[4]` -/
+def C08_exEnvServings : Env :=
+  ⟨toyCharSpec, ⟨0⟩, fun _ => none, fun sk _ => if sk == .servings then .servings [4] else .ok, fun c => [c], 0⟩
+
+/-- the hypotheses are satisfiable: `>> servings: 4` is a servings entry, the parse stores `[4]` -/
+example : ServingsEntry C08_exEnvServings (Text.fromStr "servings".toList 3) (Text.fromStr "4".toList 13) [4] :=
+  ⟨by decide +kernel, .servings, by decide +kernel, by decide +kernel⟩
+example : ((parseRecipe (α := Rat) C08_exEnvServings ">> servings: 4\n".toList).output.map (·.servings)) =
+    some (some [4]) := by decide +kernel
+-- ===== end w7c15nan =====
 
 end Cook
